@@ -223,16 +223,19 @@ class Hist:
 
     _pyvc_sym = True
 
-    def __init__(self, count):
+    def __init__(self, count, first_url=None):
         self.count = count
         self.new = []
+        self.first_url = first_url
 
     def append(self, r):
         self.new.append(r)
         self.count = self.count + 1
 
     def sym_getitem(self, i):
-        return Resp.__new__(Resp) if False else _First()
+        f = _First()
+        f.url = self.first_url  # history[0] is the response to the caller's own URL
+        return f
 
     def __bool__(self):
         from pyvc import ctx
@@ -459,7 +462,7 @@ def _run(u: U, entry_only: bool, canary: bool = False):
         return None if u.choose(2, "data@loop") == 0 else Body(u, log)
 
     u.loop(FN, wl[0], inv=inv,
-           types={"url": fresh_url, "headers": fresh_headers, "history": lambda nm: Hist(u.int("history.len@loop", 0)),
+           types={"url": fresh_url, "headers": fresh_headers, "history": lambda nm: Hist(u.int("history.len@loop", 0), first_url),
                   "cookies": lambda nm: (None if u.choose(2, "cookies@loop") == 0 else "REQ-COOKIES-ARG"),
                   "data": fresh_data, "method": lambda nm: SymEnum(u, "method@loop", METHODS),
                   "params": lambda nm: {}, "retry_persistent_connection": lambda nm: u.bool("retry@loop"),
